@@ -1,6 +1,8 @@
 CONSTANTS Deep = FALSE
+          Walk = "unfold"
           Size = "tiny"
 INIT Init
 NEXT Next
 INVARIANT ResultIsMerge
-INVARIANT OperandsIntact
+INVARIANT OperandsIntactAtReturn
+INVARIANT UnfoldedLaws
